@@ -66,3 +66,5 @@ SPEC = {'id': 'C15',
              'pion/webrtc v3: NewPeerConnection validates ICE URLs; its result classifies the environment outcome of Catch'],
  'assumptions': ['timers eventually fire (time is abstracted: the reconnect timer arm is always enabled)',
                  'WebRTCPeer.Close does not block (pion PeerConnection.Close / DataChannel.Close return)']}
+
+SPEC['thorough_passes'] = 5  # the thorough tier runs the whole harness under this many consecutive seeds
